@@ -134,7 +134,13 @@ func runC09(seed uint64) {
 	var offers []*c9offer
 	var elements []*portalwire.ContentElement
 	drainMode := p.cfg("drain")
+	// instants at which the drain found the queue full: an element completed around then may have been
+	// discarded by the node's non-blocking hand-over, which the statement allows ("a full ... queue")
+	var fullAt []time.Duration
 	drain := func() {
+		if len(vp.queue) > 0 && len(vp.queue) == cap(vp.queue) {
+			fullAt = append(fullAt, w.now())
+		}
 		for len(vp.queue) > 0 {
 			elements = append(elements, <-vp.queue)
 		}
@@ -252,6 +258,16 @@ func runC09(seed uint64) {
 	if !faults && drainMode != 0 {
 		for _, o := range offers {
 			if o.wrote && (o.beh == c9Complete || o.beh == c9Slow) && !o.matched {
+				wasFull := false
+				for _, t := range fullAt {
+					if t >= o.wroteAt-time.Second && t <= o.wroteAt+5*time.Second {
+						wasFull = true
+					}
+				}
+				if wasFull {
+					w.probe("completed_while_queue_full") // several transfers ended in one instant on a tiny queue
+					continue
+				}
 				w.violate("C09", "lost-transfer", "offer#%d: the complete stream for %d accepted keys was written and closed, the queue was drained, but nothing reached validation", o.id, len(o.accKeys))
 			}
 		}
